@@ -348,9 +348,48 @@ def digest_type_ok(ctx, t, want):
     return False
 
 
+WIDTH = {"u8": 1, "u16": 2, "u32": 4, "u64": 8, "u128": 16, "usize": 8}
+
+
+def cb(b):
+    """canonical form of a byte expression: constants are folded to ("const", bytes)"""
+    if not isinstance(b, tuple) or not b:
+        return b
+    k = b[0]
+    if k in ("le", "be") and isinstance(b[2], tuple) and b[2][0] == "int" and b[1] in WIDTH:
+        return ("const", int(b[2][1]).to_bytes(WIDTH[b[1]], "little" if k == "le" else "big"))
+    if k == "zeros" and isinstance(b[1], int):
+        return ("const", bytes(b[1]))
+    if k == "repeat" and isinstance(b[2], int) and cb(b[1])[0] == "int":
+        return ("const", bytes([cb(b[1])[1]]) * b[2])
+    if k == "arr":
+        xs = tuple(cb(x) for x in b[1])
+        if all(x[0] == "int" and 0 <= x[1] < 256 for x in xs):
+            return ("const", bytes(x[1] for x in xs))
+        return ("arr", xs)
+    if k in ("H", "MD5"):
+        return (k, tuple(cb(x) for x in b[1]))
+    if k == "HMAC":
+        return ("HMAC", cb(b[1]), tuple(cb(x) for x in b[2]))
+    if k == "text":
+        return ("text", cb(b[1]))
+    if k in ("le", "be"):
+        return (k, b[1], cb(b[2]))
+    if k == "call":
+        return ("call", b[1], tuple(cb(x) for x in b[2]))
+    if k == "F":
+        return ("F", cb(b[1]), b[2])
+    return b
+
+
 def bexpr(ctx, se, t, depth=0):
     """byte-string expression of a (stripped, unwrapped) term"""
-    t = canon(ctx, se, t) if depth == 0 else t
+    if depth == 0:
+        return cb(_bexpr(ctx, se, canon(ctx, se, t), 1))
+    return _bexpr(ctx, se, t, depth)
+
+
+def _bexpr(ctx, se, t, depth=0):
     k = t[0]
     if k == "param":
         return ("P", t[1])
@@ -384,7 +423,20 @@ def bexpr(ctx, se, t, depth=0):
         if d is not None:
             return d
         if t[1] in ctx.fb.bodies:
-            return ("call", t[1], tuple(bexpr(ctx, se, a, depth + 1) for a in t[2]))
+            args = tuple(bexpr(ctx, se, a, depth + 1) for a in t[2])
+            # a crate-local helper whose own result is a digest of its parameters: substitute
+            ch = concat_helper(ctx, t[1])
+            if ch is not None:
+                kind, key, k = ch
+                parts = cb(args[k - 1]) if k - 1 < len(args) else None
+                if parts is not None and parts[0] == "arr":
+                    if kind == "H":
+                        return ("H", tuple(parts[1]))
+                    return ("HMAC", bsubst(key, args), tuple(parts[1]))
+            hb = helper_bexpr(ctx, t[1])
+            if hb is not None:
+                return bsubst(hb, args)
+            return ("call", t[1], args)
     return ("raw", show(t, maxdepth=4))
 
 
@@ -491,6 +543,7 @@ def type_mentions(fb, ty, adt_path, by_value_only=True, depth=0):
 # --------------------------------------------------------------------------- A9: FRESH
 
 RNG_FILL = "<rand::prelude::ThreadRng as rand::RngCore>::fill_bytes"
+RNG_FILL_GENERIC = ("rand::Rng::fill", "rand::Rng::try_fill", "<rand::prelude::ThreadRng as rand::RngCore>::try_fill_bytes")
 RNG_NEXT = ("<rand::prelude::ThreadRng as rand::RngCore>::next_u32", "<rand::prelude::ThreadRng as rand::RngCore>::next_u64")
 RNG_SRC = ("rand::thread_rng",)
 
@@ -547,6 +600,10 @@ def fresh(ctx, t, depth=0):
         if is_call(c, RNG_FILL) and t[2] == 1:
             ok, why = _rng_origin_ok(ctx, c)
             return ok, ("whole buffer filled by ThreadRng::fill_bytes; " + why) if ok else why
+        if is_call(c) and c[1] in RNG_FILL_GENERIC and t[2] == 1 and digest_type_ok(ctx, c, "rand::prelude::ThreadRng"):
+            # Rng::fill(&mut thread_rng, &mut buf[..]) fills the whole byte slice from the same generator
+            ok, why = _rng_origin_ok(ctx, c)
+            return ok, ("whole buffer filled by ThreadRng (Rng::fill); " + why) if ok else why
         return False, "last writer is %s" % (c[1] if is_call(c) else show(c, maxdepth=2))
     if k == "call":
         if t[1] in RNG_NEXT:
@@ -666,3 +723,111 @@ def frame_of(ctx, path, param=1, depth=0):
     if t != ("deref", ("param", param)):
         return None
     return fields
+
+
+# --------------------------------------------------------------------------- digest helpers
+
+_helper_cache = {}
+
+
+def has_raw(b):
+    if not isinstance(b, tuple):
+        return False
+    if b and b[0] == "raw":
+        return True
+    return any(has_raw(x) for x in b[1:] if isinstance(x, tuple)) or any(has_raw(y) for x in b[1:] if isinstance(x, tuple) for y in x if isinstance(y, tuple))
+
+
+def is_digest_expr(b):
+    return isinstance(b, tuple) and b and b[0] in ("H", "HMAC", "MD5")
+
+
+def helper_bexpr(ctx, fn):
+    """byte expression of a crate-local helper's result over its parameters, when the result is
+    a digest (possibly nested) of them: such a helper is a transparent part of its caller's
+    transcript"""
+    key = (id(ctx), fn)
+    if key in _helper_cache:
+        return _helper_cache[key]
+    _helper_cache[key] = None
+    se = ctx.wrap.run(fn)
+    res = None
+    if se is not None and se.ret is not None and se.ret[0] != "phi":
+        b = bexpr(ctx, se, se.ret)
+        if is_digest_expr(b) and not has_raw(b):
+            res = b
+    _helper_cache[key] = res
+    return res
+
+
+def bsubst(b, args):
+    if not isinstance(b, tuple) or not b:
+        return b
+    k = b[0]
+    if k == "P":
+        return args[b[1] - 1] if b[1] - 1 < len(args) else b
+    if k in ("H", "MD5"):
+        return (k, tuple(bsubst(x, args) for x in b[1]))
+    if k == "HMAC":
+        return ("HMAC", bsubst(b[1], args), tuple(bsubst(x, args) for x in b[2]))
+    if k == "call":
+        return ("call", b[1], tuple(bsubst(x, args) for x in b[2]))
+    if k == "text":
+        return ("text", bsubst(b[1], args))
+    if k in ("le", "be"):
+        return (k, b[1], bsubst(b[2], args))
+    if k == "arr":
+        return ("arr", tuple(bsubst(x, args) for x in b[1]))
+    if k == "F":
+        return ("F", bsubst(b[1], args), b[2])
+    return b
+
+
+def concat_helper(ctx, fn):
+    """fn is `h = Sha1::new() | Hmac::new_from_slice(key).unwrap(); for p in parts { h.update(p) };
+    h.finalize..()`  ->  ("H", None, parts_param) | ("HMAC", key bexpr, parts_param)"""
+    key = (id(ctx), "concat", fn)
+    if key in _helper_cache:
+        return _helper_cache[key]
+    _helper_cache[key] = None
+    se = ctx.wrap.run(fn)
+    if se is None or se.ret is None:
+        return None
+    r = strip(se.ret)
+    while is_call(r) and (r[1] in IDENT_CALLS):
+        r = strip(r[2][0])
+    if not (is_call(r) and r[1] in DIGEST_FINAL + MAC_FINAL):
+        return None
+    h = r[2][0]
+    if h[0] != "phi" or h[1] != se.fn:
+        return None
+    loops = for_loops(ctx, se)
+    if len(loops) != 1 or loops[0]["next_bb"] != h[2] or len(cfg.back_edges(se.body)) != 1:
+        return None
+    lp = loops[0]
+    ins = list(se.phi_inputs.get((h[2], h[3]), {}).values())
+    if len(ins) != 2:
+        return None
+    init = [v for v in ins if not any(x == h for x in walk(v))]
+    step = [v for v in ins if any(x == h for x in walk(v))]
+    if len(init) != 1 or len(step) != 1:
+        return None
+    st = step[0]
+    if not (st[0] == "after" and is_call(st[1]) and st[1][1] in DIGEST_UPDATE + MAC_UPDATE and st[2] == 0 and st[3] == h):
+        return None
+    fed = strip(st[1][2][1])
+    if fed != strip(lp["elem"]):
+        return None
+    src = strip(lp["init"]) if lp["init"] is not None else None
+    while src is not None and is_call(src) and src[1].split("::")[-1] in ("iter", "into_iter"):
+        src = strip(src[2][0])
+    if src is None or src[0] != "param":
+        return None
+    i0 = strip(init[0])
+    res = None
+    if is_call(i0) and i0[1] in DIGEST_NEW and digest_type_ok(ctx, i0, "Sha1"):
+        res = ("H", None, src[1])
+    elif is_call(i0) and i0[1] in UNWRAP and is_call(i0[2][0]) and i0[2][0][1] in MAC_NEW and digest_type_ok(ctx, i0[2][0], "hmac::HmacCore<"):
+        res = ("HMAC", bexpr(ctx, se, i0[2][0][2][0]), src[1])
+    _helper_cache[key] = res
+    return res
